@@ -50,6 +50,85 @@ type charTreeCase struct {
 	Trials   int // 0: default knobs
 	FailRate float64
 	Lim      explore.Limits
+	// Siblings are recipes that differ from Rec only in how the same characters are grouped into fields
+	// (required sets merged, split or joined, a character moved between allow and exclude). They are
+	// used in the same process BEFORE Rec is examined: state keyed on a lossy rendering of the fields
+	// (a memo, a cache) then answers for the wrong recipe.
+	Siblings []spg.CharRecipe
+}
+
+// preCalls uses the siblings the way an application holding several policies would.
+func (tc charTreeCase) preCalls() {
+	for _, sib := range tc.Siblings {
+		sib := sib
+		func() {
+			defer func() { recover() }()
+			sib.Entropy()
+			sib.Alphabet()
+			sib.SuccessProbability()
+			runGen(sib, nil)
+		}()
+	}
+}
+
+// siblingsOf builds field-regrouped variants of rec.
+func siblingsOf(r *gen.R, rec spg.CharRecipe) []spg.CharRecipe {
+	var out []spg.CharRecipe
+	clone := func() spg.CharRecipe {
+		c := rec
+		c.RequireSets = append([]string(nil), rec.RequireSets...)
+		return c
+	}
+	if len(rec.RequireSets) >= 2 {
+		a := clone()
+		a.RequireSets = []string{strings.Join(rec.RequireSets, "")} // merged into one set
+		b := clone()
+		b.RequireSets = []string{strings.Join(rec.RequireSets, " ")} // joined with a space
+		c := clone()
+		c.RequireSets = []string{rec.RequireSets[0] + rec.RequireSets[1][:0]}
+		c.RequireSets = append([]string{rec.RequireSets[0] + firstChar(rec.RequireSets[1])}, restChars(rec.RequireSets[1]))
+		c.RequireSets = append(c.RequireSets, rec.RequireSets[2:]...)
+		out = append(out, a, b, c)
+	}
+	if len(rec.RequireSets) == 1 && len(oracle.Chars(rec.RequireSets[0])) >= 2 {
+		a := clone()
+		a.RequireSets = oracle.Chars(rec.RequireSets[0]) // split into singletons
+		out = append(out, a)
+	}
+	if cs := oracle.Chars(rec.AllowChars); len(cs) >= 2 {
+		a := clone() // last allowed character moved to the exclusion string
+		a.AllowChars = strings.Join(cs[:len(cs)-1], "")
+		a.ExcludeChars = cs[len(cs)-1] + rec.ExcludeChars
+		b := clone() // same characters, other order and a duplicate
+		b.AllowChars = cs[len(cs)-1] + rec.AllowChars
+		out = append(out, a, b)
+	}
+	if rec.Length > 1 {
+		a := clone()
+		a.Length = rec.Length - 1
+		out = append(out, a)
+	}
+	if len(out) > 3 {
+		p := r.Perm(len(out))
+		out = []spg.CharRecipe{out[p[0]], out[p[1]], out[p[2]]}
+	}
+	return out
+}
+
+func firstChar(s string) string {
+	cs := oracle.Chars(s)
+	if len(cs) == 0 {
+		return ""
+	}
+	return cs[0]
+}
+
+func restChars(s string) string {
+	cs := oracle.Chars(s)
+	if len(cs) <= 1 {
+		return s
+	}
+	return strings.Join(cs[1:], "")
 }
 
 // charTreeCaseFor is shared by C02, C03, C06: the same deterministic list of
@@ -93,6 +172,9 @@ func charTreeCaseFor(tier string, seed uint64, i int) charTreeCase {
 				c.Trials--
 			}
 		}
+	}
+	if i%2 == 0 {
+		c.Siblings = siblingsOf(r, c.Rec)
 	}
 	return c
 }
@@ -139,6 +221,8 @@ func c02Case(c *Ctx) {
 	if tc.Trials > 0 {
 		defer knobs(tc.Trials, tc.FailRate)()
 	}
+	tc.preCalls()
+	c.Count("sibling_recipes_used_first", int64(len(tc.Siblings)))
 	res := exploreGen(rec, tc.Lim, nil)
 	c.Exec(res.Leaves + res.Cuts)
 	c.Count("tree_leaves", int64(res.Leaves))
